@@ -247,6 +247,8 @@ RULES = [
 
 from . import shared
 RULES = RULES + shared.bundle('C14', ['gate', 'restart', 'driver', 'norm'], ['kernel'])
+from . import folds as _folds
+RULES = RULES + [_folds.fold_rule('C14')]
 
 
 def run(tier="quick", replay=None):
